@@ -118,37 +118,52 @@ func checkC05(c *Ctx, r *Report) {
 		}
 	}
 	{
-		// key kinds accepted: the function returns the key error exactly when kind is neither String nor Interface
+		// key kinds accepted: the key error is raised exactly for the kinds other than String and
+		// Interface. Decided by simulating the tests on the key kind for every kind constant (any
+		// spelling: != chain, switch with default, nested ifs).
 		ok := false
-		form := ""
-		for _, b := range nmi.Blocks {
-			for _, in := range b.Instrs {
-				call, isCall := in.(*ssa.Call)
-				if !isCall {
-					continue
-				}
-				if g := call.Call.StaticCallee(); g != nil && g.Name() == "raiseKeyInvalidTypeMerge" {
-					conds := newNF(c)
-					for _, p := range nmi.Params {
-						if strings.Contains(p.Type().String(), "reflect.Value") {
-							conds.Role(p, "from")
-						}
-					}
-					m := conds.CondsAt(call)
-					var ks []string
-					for k, v := range m {
-						ks = append(ks, fmt.Sprintf("%s=%v", k, v))
-					}
-					sort.Strings(ks)
-					f := strings.Join(ks, " ; ")
-					if strings.Contains(f, "invoke Kind(invoke Key((reflect.Value).Type($from)))") {
-						form = f
-						ok = strings.Contains(f, ", 24)=true") && strings.Contains(f, ", 20)=true")
-					}
+		form := "no test of the map's key kind found"
+		nbk := newNF(c)
+		for _, p := range nmi.Params {
+			if strings.Contains(p.Type().String(), "reflect.Value") {
+				nbk.Role(p, "from")
+			}
+		}
+		var raise *ssa.Call
+		for _, ci := range CallsIn(nmi, false) {
+			if g := ci.Common().StaticCallee(); g != nil && g.Name() == "raiseKeyInvalidTypeMerge" {
+				if call, isCall := ci.(*ssa.Call); isCall && raise == nil {
+					raise = call
 				}
 			}
 		}
-		r.Check(ok, "R05b", c.FnName(nmi), "key kinds", c.Pos(nmi.Pos()), "rejected exactly when the key kind is neither String (24) nor Interface (20)", "normalizeMapInto does not accept both string-keyed and interface-keyed maps: "+form)
+		for _, d := range findDispatches(nmi, kt) {
+			if nbk.Of(d.Tag).String() != "invoke Kind(invoke Key((reflect.Value).Type($from)))" {
+				continue
+			}
+			if raise == nil {
+				form = "normalizeMapInto never raises the key type error"
+				break
+			}
+			// kinds whose path through the tests leads to the first raise (the one guarding the map as a whole)
+			rejected := map[int64]bool{}
+			for _, k := range kinds {
+				path := simulateKind(d, k.Val, kt)
+				t := path[len(path)-1]
+				if t == raise.Block() || (t.Dominates(raise.Block()) && onlyReturnsBetween(t, raise.Block())) {
+					rejected[k.Val] = true
+				}
+			}
+			var acc []string
+			for _, k := range kinds {
+				if !rejected[k.Val] {
+					acc = append(acc, k.Name)
+				}
+			}
+			form = "accepted key kinds: " + strings.Join(acc, ", ")
+			ok = len(acc) == 2 && !rejected[24] && !rejected[20]
+		}
+		r.Check(ok, "R05b", c.FnName(nmi), "key kinds", c.Pos(nmi.Pos()), form, "normalizeMapInto does not accept exactly string-keyed and interface-keyed maps: "+form)
 	}
 
 	// ---- R05c ----
@@ -306,4 +321,18 @@ func kindNameOf(t types.Type) string {
 		return "Interface"
 	}
 	return "other"
+}
+
+// onlyReturnsBetween: b is a itself, or a leads straight to b (a's only way forward is b).
+func onlyReturnsBetween(a, b *ssa.BasicBlock) bool {
+	for cur := a; cur != nil; {
+		if cur == b {
+			return true
+		}
+		if len(cur.Succs) != 1 {
+			return false
+		}
+		cur = cur.Succs[0]
+	}
+	return false
 }
